@@ -138,16 +138,3 @@ def log_likelihood_structural_change(reads: A[f8, 3], genotype: A[i1, 2], haplot
         invariant(read_hap_prod == RHP(reads, GP, r, h, j))
         with head():
             unfold(RHP(reads, GP, r, h, j + 1))
-
-
-@contract("mchap.calling.likelihood.log_likelihood_alleles", machine_ints=True, props=["C04", "C09", "C02"])
-def log_likelihood_alleles(reads: A[f8, 3], read_counts: A[i8, 1], haplotypes: A[i1, 2], genotype_alleles: A[i8, 1]) -> float:
-    requires(reads.shape[1] == haplotypes.shape[1], len(genotype_alleles) >= 1, len(read_counts) == len(reads))
-    requires(forall(0, len(genotype_alleles), lambda h: 0 <= genotype_alleles[h] and genotype_alleles[h] < len(haplotypes)))
-    requires(forall(0, len(haplotypes), lambda h: forall(0, haplotypes.shape[1], lambda j: 0 <= haplotypes[h, j] and haplotypes[h, j] < reads.shape[2])))
-    requires(forall(lambda r, j, a: not isninf(reads[r, j, a]) and (isnan(reads[r, j, a]) or reads[r, j, a] >= 0)))
-    requires(forall(0, len(reads), lambda r: read_counts[r] >= 0 and implies(read_counts[r] == 0, RP(reads, GG, r, len(genotype_alleles), haplotypes.shape[1], len(genotype_alleles)) > 0)))
-    # likelihood of the genotype whose h-th haplotype is haplotypes[genotype_alleles[h]]
-    ensures(result == LLK(reads, read_counts, GG, len(genotype_alleles), haplotypes.shape[1], len(reads)))
-    with defs():
-        GG = arr2(lambda a, c: haplotypes[genotype_alleles[a], c])
